@@ -145,6 +145,15 @@ def repeat_mode_provenance(prog, res):
             res.check(ok, R, h.name + ":offcode-valid-demoted-after-block", h.loc, "after confirming a block, offcode `valid` becomes `check`",
                       "a confirmed block can leave the dictionary's offset table marked `valid` although the window has moved")
             n += 1
+            # blocks stored raw or as RLE move the window as well: the same demotion follows them (they are not confirmed, so the clause
+            # above does not see them)
+            plain = h.call_roots(("ZSTD_noCompressBlock", "ZSTD_rleCompressBlock"))
+            if plain:
+                ok2 = h.must_pass(via_roots=dem, via_edges=set(tst), starts=[(b, i + 1) for b, i in plain], targets=[t for t in reset.success_returns(h)])
+                res.check(ok2, R, h.name + ":offcode-valid-demoted-after-raw-or-rle-block", h.loc, "after a raw / RLE block, offcode `valid` becomes `check` too",
+                          "%s can finish a raw or RLE block and go on with the dictionary's offset table still marked `valid`: the next block may need an offset "
+                          "code the table does not hold (dictionary, two raw blocks, then an offset beyond 256 KB at levels 1-4: the frame does not decode)" % h.name)
+                n += 1
     res.check(n >= 3, R, "demotion-sites", "lib/compress/zstd_compress.c", "%d block paths demote the offset table" % n, "demotion sites vanished (%d)" % n)
     res.need(R, 9)
 
